@@ -160,6 +160,8 @@ fn message_sets() -> Vec<Vec<Message>> {
             Message::new(Some(2), Bytes::from_static(b"second"), Some(one_header)),
             Message::new(Some(3), Bytes::from(vec![0xFFu8; 17]), None),
         ],
+        // an empty payload next to a non-empty one
+        vec![Message::new(Some(4), Bytes::new(), None), Message::new(Some(5), Bytes::from_static(b"after-empty"), None)],
     ]
 }
 
@@ -647,7 +649,22 @@ fn part2(res: &mut JobResult) {
                             m.id = next_id;
                         }
                         let want: Vec<(u128, Bytes, Option<HashMap<HeaderKey, HeaderValue>>)> = msgs.iter().map(|m| (m.id, m.payload.clone(), m.headers.clone())).collect();
-                        if let Err(e) = c.send_messages(&st, &tp, part, &mut msgs).await {
+                        // what the SDK's own validation says about this batch decides what both transports must do
+                        let valid = iggy::validatable::Validatable::validate(&iggy::messages::send_messages::SendMessages {
+                            stream_id: st.clone(),
+                            topic_id: tp.clone(),
+                            partitioning: part.clone(),
+                            messages: msgs.iter().map(|m| Message::new(Some(m.id), m.payload.clone(), m.headers.clone())).collect(),
+                        })
+                        .is_ok();
+                        let sent = c.send_messages(&st, &tp, part, &mut msgs).await;
+                        if !valid {
+                            if sent.is_ok() {
+                                d.push((format!("{tname}:send_messages/invalid-accepted"), format!("a batch the SDK's validation rejects ({} message(s), partitioning {part:?}) was accepted by the server", want.len())));
+                            }
+                            continue;
+                        }
+                        if let Err(e) = sent {
                             d.push((format!("{tname}:send_messages/refused"), format!("send of {} message(s) with partitioning {part:?} was refused: {e}", want.len())));
                             continue;
                         }
